@@ -322,7 +322,11 @@ pub fn run(mut run: Run) -> i32 {
         let d0 = distance_enum(&a.g, &b.g);
         acc.class(format!("{}x{} {}", a.ty(), b.ty(), r0));
         acc.sample(idx, || json!({"a": a.wkt(), "b": b.wkt(), "relate": r0}));
-        for (m, s, _refl, name) in &maps {
+        for (mi, (m, s, _refl, name)) in maps.iter().enumerate() {
+            // quick tier: every other near map (all eight symmetries still occur, with alternating offset / factor) and every far one
+            if quick && mi < 48 && mi % 2 == 1 {
+                continue;
+            }
             let (ta, tb) = (a.g.affine_transform(m), b.g.affine_transform(m));
             acc.evals += 5;
             let r1 = relate_enum(&ta, &tb);
